@@ -4,4 +4,5 @@ CONSTANTS
   AssignFamilies <- AssignThorough
 INVARIANT PropertyHolds
 INVARIANT ModelSanity
+INVARIANT StartSelfTest
 CHECK_DEADLOCK FALSE
